@@ -6,6 +6,7 @@ import (
 	"bytes"
 	"encoding/hex"
 	"fmt"
+	"strconv"
 	"testing"
 
 	"github.com/bilibili/smgo/sm3"
@@ -118,9 +119,16 @@ type c04singleCase struct {
 // wraps on a 32-bit target (the w32 part runs this driver as a GOARCH=386 binary) and at which 32-bit block counters
 // come into reach on any target. The message is untouched anonymous memory (all zero); the oracle is streaming sm3ref.
 func TestVX_C04Single(t *testing.T) {
-	r := vx.Begin("C04", "sm3-single-huge", "all-zero messages of length L in {2^28-1, 2^28, 2^28+1, 2^28+55, 2^28+64, 2^29-1, 2^29, 2^29+9} given in one piece: SumSM3(m); New, one Write(m) (return value checked), Sum, Sum again; New, Write(m[:L/2+3]), Write(m[L/2+3:]), Sum. Oracle: streaming sm3ref with the 64-bit length field (anchored on OpenSSL digests in the sm3-huge part)")
+	r := vx.Begin("C04", "sm3-single-huge", "all-zero messages of length L in {2^28-1, 2^28, 2^28+1, 2^28+55, 2^28+64, 2^29-1, 2^29, 2^29+9; on 64-bit targets also 2^32+5, 2^32+64} given in one piece: SumSM3(m); New, one Write(m) (return value checked), Sum, Sum again; New, Write(m[:L/2+3]), Write(m[L/2+3:]), Sum. Oracle: streaming sm3ref with the 64-bit length field (anchored on OpenSSL digests in the sm3-huge part)")
 	defer r.End()
 	lens := []int{1<<28 - 1, 1 << 28, 1<<28 + 1, 1<<28 + 55, 1<<28 + 64, 1<<29 - 1, 1 << 29, 1<<29 + 9}
+	if strconv.IntSize == 64 {
+		// byte counts that no longer fit 32 bits, in one call and in two (the bit count then needs more than 35 bits)
+		big := []int64{1<<32 + 5, 1<<32 + 64}
+		for _, b := range big {
+			lens = append(lens, int(b))
+		}
+	}
 	zero := make([]byte, 1<<20)
 	for li, L := range lens {
 		if !vx.MineIdx(li) {
